@@ -341,10 +341,15 @@ def _meta_value(field, kind, labels):
     n = len(labels)
     if kind == "dict":
         pairs = list(zip(labels, PERCH[field]))
-        if field in ("illum_wavelen", "noise_sd"):
-            # same mapping, but written in another order than the image's
-            # channel axis
+        # same mapping, but written in other orders than the image's
+        # channel axis: reversed for the wavelength, rotated by one for the
+        # noise level (with two channels: the channel order itself), so
+        # that among the fields there is always a dictionary whose order is
+        # neither the channel order nor the alphabetical one
+        if field == "illum_wavelen":
             pairs = pairs[::-1]
+        elif field == "noise_sd" and len(pairs) > 2:
+            pairs = pairs[1:] + pairs[:1]
         return {l: v for l, v in pairs}
     if kind == "array":
         if field == "illum_polarization":
@@ -374,6 +379,36 @@ def _mkimage(shape, labels, dtype, spacing, name, kinds, h5=False,
     if name is None:
         im.name = None
     return im
+
+
+def _check_built(ck, im, kinds, labels, what):
+    """the image factory attaches every per-channel value to the channel it
+    was given for, in whatever order a dictionary lists them"""
+    import xarray as xr
+    if not labels:
+        return
+    for f in ("medium_index", "illum_wavelen", "noise_sd"):
+        if kinds.get(f) not in ("dict", "array"):
+            continue
+        got = im.attrs.get(f)
+        if isinstance(got, dict):
+            # kept as a dictionary: the mapping itself must be unchanged
+            ok = {k: float(v) for k, v in got.items()} == \
+                dict(zip(labels, PERCH[f]))
+        else:
+            ok = isinstance(got, xr.DataArray) and ILL in got.dims
+            if ok:
+                for lab, want in zip(labels, PERCH[f]):
+                    v = float(got.sel({ILL: lab}).values)
+                    ok = ok and v == want
+        ck.true("construct-per-channel", ok, "%s: %s given per channel as "
+                "%s %r is stored as %r" %
+                (what, f, kinds[f], _meta_value(f, kinds[f], labels),
+                 None if got is None else
+                 dict(zip(_labels(got[ILL]), np.asarray(
+                     got.values).ravel().tolist()))
+                 if isinstance(got, xr.DataArray) and ILL in got.dims
+                 else got))
 
 
 # --------------------------------------------------------------------------
@@ -542,6 +577,7 @@ def _run_h5(case, ck, d):
     try:
         im = _mkimage(shape, labels, v["dtype"], SPACINGS[v["spacing"]],
                       NAMES[v["name"]], kinds, h5=True)
+        _check_built(ck, im, kinds, labels, "data_grid(%r)" % (v,))
         ck.trans += 1
     except Exception as e:
         ck.true("h5-build", False, "data_grid raised %s" % _exc(e))
@@ -760,6 +796,7 @@ def _run_tiff(case, ck, d):
         try:
             im = _mkimage(shape, labels, v["dtype"], SPACINGS[v["spacing"]],
                           NAMES[v["name"]], kinds)
+            _check_built(ck, im, kinds, labels, "data_grid(%r)" % (v,))
         except Exception as e:
             ck.true("tiff-build", False, "data_grid raised %s for %r" %
                     (_exc(e), v))
